@@ -1,4 +1,6 @@
+import faulthandler
 import importlib
+import signal
 import os
 import sys
 import traceback
@@ -10,6 +12,7 @@ sys.path.insert(0, REPO_SRC)
 
 
 def main():
+    faulthandler.register(signal.SIGUSR1, all_threads=True)
     if len(sys.argv) < 2:
         print("usage: check <id> quick|thorough")
         return 2
